@@ -33,6 +33,11 @@ pub enum Spec17 {
     FillInt { target: u8, channels: usize, cap: usize, samples: usize },
     FillBytes { target: u8, channels: usize, cap: usize, bps: usize, bytes_per_sample: usize, nbytes: usize },
     SourceBytes { mt: bool, bps: usize, bytes_per_sample: usize },
+    /// a slice whose length is not a whole number of inter-channel samples (ints) or of samples
+    /// (bytes): `extra` elements/bytes beyond `whole` inter-channel samples
+    FillRagged { target: u8, bytes: bool, channels: usize, cap: usize, bps: usize, whole: usize, extra: usize },
+    /// with_size(cap) -> resize(new_size) -> fill of `samples` inter-channel samples
+    FillAfterResize { bytes: bool, channels: usize, cap: usize, new_size: usize, samples: usize },
 }
 
 fn channel_values() -> Vec<usize> {
@@ -114,6 +119,27 @@ pub fn grid17() -> Vec<Spec17> {
             }
         }
     }
+    for target in 0..3u8 {
+        for bytes in [false, true] {
+            for (channels, bps) in [(2usize, 16usize), (3, 24), (8, 16), (2, 24), (5, 12)] {
+                let unit = if bytes { (bps + 7) / 8 } else { channels };
+                for whole in [0usize, 1, 31, 32] {
+                    for extra in 1..unit.min(4) {
+                        g.push(Spec17::FillRagged { target, bytes, channels, cap: 32, bps, whole, extra });
+                    }
+                }
+            }
+        }
+    }
+    for bytes in [false, true] {
+        for channels in [1usize, 2, 8] {
+            for (cap, new_size) in [(100usize, 150usize), (150, 100), (64, 32), (32, 64), (4096, 32), (100, 101)] {
+                for samples in [new_size - 1, new_size, new_size + 1, cap.max(new_size), cap.max(new_size) + 1, new_size + new_size / 3, 2 * new_size] {
+                    g.push(Spec17::FillAfterResize { bytes, channels, cap, new_size, samples });
+                }
+            }
+        }
+    }
     g
 }
 
@@ -123,6 +149,9 @@ enum Dom {
     Invalid,
     /// in-between widths the code tolerates: either an error or a correct lossless encode
     Tolerated,
+    /// argument classes the property does not list (a slice that is not a whole number of
+    /// samples): observed and counted, any terminating outcome is accepted
+    Unlisted,
 }
 
 fn width_dom(bps: usize) -> Dom {
@@ -194,6 +223,14 @@ fn domain17(s: &Spec17) -> Dom {
                 Dom::Valid
             } else {
                 Dom::Invalid
+            }
+        }
+        Spec17::FillRagged { .. } => Dom::Unlisted,
+        Spec17::FillAfterResize { new_size, samples, .. } => {
+            if samples > new_size {
+                Dom::Invalid
+            } else {
+                Dom::Valid
             }
         }
     }
@@ -369,6 +406,57 @@ fn exec17(s: &Spec17) -> String {
                     Err(_) => "Err".into(),
                 }
             }
+            Spec17::FillRagged { target, bytes, channels, cap, bps, whole, extra } => {
+                let mut fb = FrameBuf::with_size(*channels, *cap).unwrap();
+                let mut cx = Context::new(*bps, *channels);
+                let r = if *bytes {
+                    let by = (bps + 7) / 8;
+                    let data = vec![1u8; whole * channels * by + extra];
+                    match target {
+                        0 => fb.fill_le_bytes(&data, by),
+                        1 => cx.fill_le_bytes(&data, by),
+                        _ => (&mut fb, &mut cx).fill_le_bytes(&data, by),
+                    }
+                } else {
+                    let data = vec![3i32; whole * channels + extra];
+                    match target {
+                        0 => fb.fill_interleaved(&data),
+                        1 => cx.fill_interleaved(&data),
+                        _ => (&mut fb, &mut cx).fill_interleaved(&data),
+                    }
+                };
+                match r {
+                    Ok(()) => "Ok".into(),
+                    Err(_) => "Err".into(),
+                }
+            }
+            Spec17::FillAfterResize { bytes, channels, cap, new_size, samples } => {
+                let mut fb = FrameBuf::with_size(*channels, *cap).unwrap();
+                // a first fill (allocates whatever the buffer allocates lazily), then the resize
+                let _ = if *bytes { fb.fill_le_bytes(&vec![0u8; 4 * channels * 2], 2) } else { fb.fill_interleaved(&vec![0i32; 4 * channels]) };
+                fb.resize(*new_size);
+                let r = if *bytes { fb.fill_le_bytes(&vec![1u8; samples * channels * 2], 2) } else { fb.fill_interleaved(&vec![3i32; samples * channels]) };
+                match r {
+                    Ok(()) => {
+                        if *samples == 0 {
+                            return "Ok".into();
+                        }
+                        let v = enc::verified(&cfg).unwrap();
+                        let si = StreamInfo::new(44100, *channels, 16).unwrap();
+                        match flacenc::encode_fixed_size_frame(&v, &fb, 0, &si) {
+                            Ok(f) => {
+                                if f.block_size() == *samples {
+                                    "Ok".into()
+                                } else {
+                                    format!("Ok-WRONG:frame of {} samples after a fill of {} into a buffer resized to {}", f.block_size(), samples, new_size)
+                                }
+                            }
+                            Err(_) => "Ok-WRONG:fill accepted but the buffer can no longer be encoded".into(),
+                        }
+                    }
+                    Err(_) => "Err".into(),
+                }
+            }
         }
     });
     match r {
@@ -397,6 +485,8 @@ fn spec17_class(s: &Spec17) -> String {
         Spec17::FrameBufNew { channels, size } => format!("FrameBuf::with_size(ch={},size={})", v(*channels), v(*size)),
         Spec17::FillInt { target, channels, cap, samples } => format!("{}::fill_interleaved(ch={},cap={},samples_per_channel={})", ["FrameBuf", "Context", "(FrameBuf,Context)"][*target as usize], channels, cap, samples),
         Spec17::FillBytes { target, channels, cap, bps, bytes_per_sample, nbytes } => format!("{}::fill_le_bytes(ch={},cap={},bps={},bytes_per_sample={},nbytes={})", ["FrameBuf", "Context", "(FrameBuf,Context)"][*target as usize], channels, cap, bps, v(*bytes_per_sample), nbytes),
+        Spec17::FillRagged { target, bytes, channels, cap, bps, whole, extra } => format!("{}::{}(ch={},cap={},bps={}: {} whole inter-channel samples + {} stray {})", ["FrameBuf", "Context", "(FrameBuf,Context)"][*target as usize], if *bytes { "fill_le_bytes" } else { "fill_interleaved" }, channels, cap, bps, whole, extra, if *bytes { "bytes" } else { "values" }),
+        Spec17::FillAfterResize { bytes, channels, cap, new_size, samples } => format!("FrameBuf::with_size(ch={channels},{cap}) -> resize({new_size}) -> {}({samples} samples per channel)", if *bytes { "fill_le_bytes" } else { "fill_interleaved" }),
     }
 }
 
@@ -439,6 +529,8 @@ fn spec17_sig(s: &Spec17, outcome: &str) -> String {
         Spec17::FrameBufNew { .. } => "FrameBuf::with_size".into(),
         Spec17::FillInt { target, .. } => format!("{}::fill_interleaved|too-long", ["FrameBuf", "Context", "Tuple"][*target as usize]),
         Spec17::FillBytes { target, bytes_per_sample, .. } => format!("{}::fill_le_bytes|{}", ["FrameBuf", "Context", "Tuple"][*target as usize], if *bytes_per_sample == 0 { "bps0" } else if *bytes_per_sample > 4 { "bps>4" } else { "mismatch-or-too-long" }),
+        Spec17::FillRagged { target, bytes, .. } => format!("{}::{}|ragged-length", ["FrameBuf", "Context", "Tuple"][*target as usize], if *bytes { "fill_le_bytes" } else { "fill_interleaved" }),
+        Spec17::FillAfterResize { bytes, .. } => format!("FrameBuf::resize+{}|too-long", if *bytes { "fill_le_bytes" } else { "fill_interleaved" }),
     };
     format!("C17|{what}|{kind}")
 }
@@ -828,6 +920,10 @@ pub fn run_c17(ctx: &Ctx) -> i32 {
                 Dom::Invalid => !outcome.starts_with("Err"),
                 Dom::Tolerated => !(outcome == "Err" || outcome == "Ok-lossless" || outcome == "Ok"),
                 Dom::Valid => outcome.starts_with("Panic") || outcome.starts_with("Ok-WRONG"),
+                Dom::Unlisted => {
+                    o.set_insert("unlisted_argument_outcomes", format!("{} -> {}", spec17_sig(s, outcome), outcome.chars().take(60).collect::<String>()));
+                    false
+                }
             };
             if bad {
                 let mut sig = spec17_sig(s, outcome);
@@ -845,7 +941,7 @@ pub fn run_c17(ctx: &Ctx) -> i32 {
     let out = std::mem::take(&mut *out.lock().unwrap());
     let fin = Finish {
         level: "exploration",
-        rule: "the argument grid of the property, enumerated: every argument of encode_with_fixed_block_size (through a Source reporting the value; both thread modes), encode_fixed_size_frame, StreamInfo::new, Stream::new, FrameBuf::with_size, fill_interleaved / fill_le_bytes on FrameBuf, Context and the (FrameBuf, Context) tuple, taken from {0, min-1, min, max, max+1, 2^8+k, 2^16+k, 2^32+k, usize::MAX} with the others valid; each call runs in a supervised child; outside the supported domain the result must be Err (never Ok, panic, hang or abort); in-between widths 9..23 the code tolerates may error or encode losslessly at that width; distinct = distinct calls",
+        rule: "the argument grid of the property, enumerated: every argument of encode_with_fixed_block_size (through a Source reporting the value; both thread modes), encode_fixed_size_frame, StreamInfo::new, Stream::new, FrameBuf::with_size, fill_interleaved / fill_le_bytes on FrameBuf, Context and the (FrameBuf, Context) tuple, taken from {0, min-1, min, max, max+1, 2^8+k, 2^16+k, 2^32+k, usize::MAX} with the others valid; each call runs in a supervised child; outside the supported domain the result must be Err (never Ok, panic, hang or abort); in-between widths 9..23 the code tolerates may error or encode losslessly at that width; fills after a (valid) FrameBuf::resize follow the same capacity rule; ragged slices (not a whole number of samples) are not in the property's list: their outcomes are recorded under observed_sets.unlisted_argument_outcomes, not judged; distinct = distinct calls",
         assumptions: vec!["supported domain as documented: channels 1..=8, block size 32..=32767, rate <= 96000, widths {8,12,16,20,24}, frame number < 2^31, fill length <= capacity, bytes-per-sample = ceil(width/8) where a width is declared (Context), 1..=4 otherwise".into()],
         exhaustive: Some(ctx.only.is_none()),
         floors: vec![],
